@@ -226,6 +226,57 @@ PROPS['C11'] = dict(
 )
 
 
+# ---------------------------------------------------------------- C09, C10, C13 (h_fit)
+PROPS['C09'] = dict(
+    level_text='Exploration against an oracle built from the definition: the penalised normal matrix H = sum_k w_k b_k b_k^T + sum_d lambda_d (I x D_p^T D_p x I) and '
+               'right-hand side r are assembled point by point in long double (no GLAM/Kronecker shortcut, exact B-spline derivative-coefficient maps), and the returned '
+               'float coefficients must satisfy the normal equations to a backward error of 8*2^-24(|H||c|+|r|) - a conditioning-independent test - for C++ fit, '
+               'fit with permuted listing order plus zero-weight entries, and the C wrapper; plus reproduction of spline-generated data at zero smoothing and of polynomials below the penalty order.',
+    level_note=NOTE_COMMON + '; problems whose oracle Cholesky pivot ratio is below 1e-9 are outside the quantifier ("well-posed") and skipped',
+    technique='runtime monitor: dense normal-equation oracle (backward-error test) under ASan/UBSan and in the production build',
+    targets=[T('h_fit.cpp', 'prod'), T('h_fit.cpp', 'asan')],
+    passes=lambda tier, sc: [Pass('prod', 'h_fit.prod', 'C09', n(tier, 160, 2400, sc), stall_s=300),
+                             Pass('asan', 'h_fit.asan', 'C09', n(tier, 48, 400, sc), stall_s=600)],
+    level='exploration',
+    rule='case = random fit problem (1-4 dims, orders 0-4, penalty orders 0..order, irregular strictly increasing knots, irregular/unsorted abscissae incl. on-knot, '
+         'dense or 30-70% sparse grids, weights 1e-3..1e3, smoothing 0 or 1e-6..1e6, scalar or per-dimension arguments) x 3 entry-point variants; '
+         'distinct_nontrivial counts distinct (problem, variant) fits on well-posed problems',
+    assumptions=ASSUME_COMMON + ['bound K=8 on |Hc-r|/(2^-24(|H||c|+|r|)) (probe: worst 0.77 on 150 fits)'],
+    require={'any': {'problems-well-posed': 80, 'fits:C:splinetable_glamfit': 50, 'spline-reproduction-checks': 5, 'polynomial-reproduction-checks': 3}},
+)
+PROPS['C10'] = dict(
+    level_text='Exploration: monotonic fits of noisy, decreasing, oscillating, constant and random data in 1-3 dimensions for every choice of monotonic dimension; '
+               'the monitor checks (i) exact non-decrease of the returned float coefficients along that dimension, (ii) a non-negative reference derivative of the returned table at sampled points of full support, '
+               '(iii) agreement with the unconstrained fit when the data come from a strictly monotone positive spline (constraint inactive); thread creations are counted to show the parallel line search was reached.',
+    level_note=NOTE_COMMON,
+    technique='runtime monitor: order/derivative invariants on returned tables + differential check against the unconstrained fit, under ASan/UBSan',
+    targets=[T('h_fit.cpp', 'prod'), T('h_fit.cpp', 'asan')],
+    passes=lambda tier, sc: [Pass('prod', 'h_fit.prod', 'C10', n(tier, 200, 3000, sc), stall_s=300, env={'OMP_NUM_THREADS': '3'}),
+                             Pass('asan', 'h_fit.asan', 'C10', n(tier, 60, 500, sc), stall_s=600, env={'OMP_NUM_THREADS': '2'})],
+    level='exploration',
+    rule='case = (random problem of 1-3 dims with orders 1-4, monotonic dimension, data kind in {noisy increasing, decreasing, oscillating, constant, gaussian noise, '
+         'from-monotone-spline}); distinct_nontrivial counts distinct (problem, monodim) monotonic fits',
+    assumptions=ASSUME_COMMON,
+    require={'any': {'monotonic-fits': 150, 'fits-that-reached-the-parallel-line-search': 5, 'inactive-constraint-comparisons': 5, 'derivative-points-checked': 3000}},
+)
+PROPS['C13'] = dict(
+    level_text='Fault injection on the argument tuple: valid 1-3-d problems get one or two corruptions from the cross product in the property (counts off by one or empty, index outside its range, '
+               'coordinate vector shorter than the declared range, unsorted / too few knots, huge orders, penalty order above the order, monodim out of range); every array is handed over as a view onto an '
+               'exact-size heap block so ASan sees any over-read. Must-reject tuples must throw and leave an empty or previously fitted table unchanged (snapshot through every getter); all tuples must be '
+               'memory-safe; the C wrapper must return non-zero. Same tuples again in the production build under RLIMIT_AS where ASan hits its allocator limit.',
+    level_note=NOTE_COMMON,
+    technique='fault injection on arguments + ASan/UBSan + state-snapshot oracle',
+    targets=[T('h_fit.cpp', 'asan'), T('h_fit.cpp', 'prod')],
+    passes=lambda tier, sc: [Pass('asan', 'h_fit.asan', 'C13', n(tier, 1500, 30000, sc), stall_s=300),
+                             Pass('prod', 'h_fit.prod', 'C13', n(tier, 1500, 30000, sc), stall_s=300, env={'VF_RLIMIT_AS_MB': '6000'})],
+    level='fault_enumeration',
+    rule='case = (valid base problem, 0-2 corruptions out of 21 kinds) fitted into an empty and into a populated table and through the C wrapper; '
+         'distinct_nontrivial counts distinct (case, corruption set) tuples',
+    assumptions=ASSUME_COMMON,
+    require={'any': {'tuples-must-reject': 500, 'tuples-may-complete': 200, 'fits-into-populated-table': 500, 'C-wrapper-calls': 300}},
+)
+
+
 def all_targets():
     seen, out = set(), []
     for p in PROPS.values():
